@@ -462,9 +462,10 @@ Section Front.
     do (t, tid) <- read_xref_table_and_trailer (xref_at file) (lenN file) (S (length file)) start xoff;
     Ok (start, t, tid).
 
-  (* file.rs: resolve_ref (changes empty).  `self.start_offset + pos` is an unchecked addition.
-     The recursion through resolve.get::<ObjectStream> is cut by fuel (the implementation reports
-     "Recursive reference" there). *)
+  (* file.rs: resolve_ref (changes empty).  `self.start_offset.checked_add(pos)` — an offset that does
+     not fit behind the header position is reported like any other offset beyond the end of the file
+     (ContentReadPastBoundary).  The recursion through resolve.get::<ObjectStream> is cut by fuel (the
+     implementation reports "Recursive reference" there). *)
   Fixpoint resolve_ref (fuel : nat) (file : bytes) (start : N) (t : table) (id : N) : res value :=
     match fuel with
     | O => OutOfFuel
@@ -472,7 +473,7 @@ Section Front.
         do e <- table_get t id;
         match e with
         | XRaw pos _ =>
-            if usize_max <=? start + pos then Panic 204 else     (* attempt to add with overflow *)
+            if usize_max <=? start + pos then Err E_BOUNDS else  (* checked_add(..).ok_or(ContentReadPastBoundary) *)
             if lenN file <? start + pos then Err E_BOUNDS else
             obj_at file (start + pos)
         | XStream sid idx =>
